@@ -74,10 +74,14 @@ class MementoException(RuntimeError):
             module_name = match.group(2)
             name = match.group(3)
             if language == "python":
-                module = importlib.import_module(module_name)
-                ref = module
-                for part in name.split("."):
-                    ref = getattr(ref, part)
+                try:
+                    module = importlib.import_module(module_name)
+                    ref = module
+                    for part in name.split("."):
+                        ref = getattr(ref, part)
+                except (ImportError, AttributeError):
+                    # The exception class cannot be found again (e.g. it is local to a function)
+                    return self
                 if not inspect.isclass(ref):
                     return self
                 try:
@@ -87,9 +91,9 @@ class MementoException(RuntimeError):
                             self.message, self.stack_trace
                         )
                     )
-                except TypeError:
-                    # If we couldn't construct the exception (e.g. it has required parameters),
-                    # just return this as a MementoException
+                except Exception:
+                    # If we couldn't construct the exception (e.g. it has required parameters
+                    # or rejects the message), just return this as a MementoException
                     return self
             else:
                 # If this is an exception from another language, return this as a MementoException
